@@ -243,6 +243,13 @@ Fixpoint dep (d : nat) (ts : list tok) : nat :=
   | _ :: r => dep d r
   end.
 
+(* token lists that stay strictly inside the top-level object that is open at nesting depth d (the depth never returns to 0) *)
+Fixpoint inside (d : nat) (ts : list tok) : bool :=
+  match ts with
+  | [] => true
+  | t :: r => match dep d [t] with O => false | S k => inside (S k) r end
+  end.
+
 (* ---- the class object that CopiedFailure.setCopyableState puts into f.type: __module__ / __name__ are the transmitted
    name split at its LAST dot; reflect.qual(f.type) joins them again.  Nothing else enters (no table that outlives the call) *)
 Fixpoint split_last (sep : Z) (t : list Z) : option (list Z * list Z) :=
